@@ -672,6 +672,10 @@ pub fn direct_oracle(script: &str, trace: &str) -> Vec<String> {
             if !answered || !st.contains("att=err") {
                 v.push(format!("c13-refused-attach-unanswered: the peer refused the attach at step {} (closing detach): answered with a closing detach: {}, attach() returned an error: {} ({})", i, answered, st.contains("att=err"), st));
             }
+            // ... and the error it returns is the one the peer's closing detach carried (amqp:internal-error here)
+            if st.contains("att=err") && !st.contains("att=err:RemoteClosedWithError") {
+                v.push(format!("c13-refused-attach-error-lost: the peer refused the attach at step {} with a closing detach carrying an error; attach() returned another error ({})", i, st));
+            }
         }
         match *e {
             "pb" => peer_begun = begins > 0 && ends == 0 || peer_begun,
@@ -978,10 +982,49 @@ pub fn run_flush_case(line: &str) -> String {
             barrier().await;
             let _ = peer.drain().await;
         }
-        let (_session, mut sender) = match at.await {
+        let (mut _session, mut sender) = match at.await {
             Ok((s, Ok(l))) => (s, l),
             _ => return "PRELUDE-FAILED attach".to_string(),
         };
+        let how = w.iter().find_map(|x| x.strip_prefix("how=")).unwrap_or("pclose").to_string();
+        if how == "end" || how == "ende" {
+            // session variant: k pre-settled sends and, without giving the engines a turn in between, the end of the session
+            // (with or without an error): everything the link had handed over is written before the end frame
+            let with_err = how == "ende";
+            let app = tokio::spawn(async move {
+                let mut ok = 0;
+                for _ in 0..n {
+                    if sender.send("x".repeat(size)).await.is_ok() {
+                        ok += 1;
+                    }
+                }
+                let r = if with_err {
+                    _session.end_with_error(definitions::Error::new(AmqpError::InternalError, None, None)).await
+                } else {
+                    _session.end().await
+                };
+                (ok, r.is_ok(), sender)
+            });
+            let mut toks: Vec<String> = Vec::new();
+            let mut answered = false;
+            for _ in 0..80 {
+                barrier().await;
+                let ws = peer.drain().await;
+                for wv in &ws {
+                    if let Wire::Frame { perf: Performative::End(_), .. } = wv {
+                        if !answered {
+                            answered = true;
+                            peer.write(&frame_bytes(0, &Performative::End(fe2o3_amqp_types::performatives::End { error: None }), &[])).await;
+                        }
+                    }
+                }
+                if !ws.is_empty() {
+                    toks.push(tokens(&ws));
+                }
+            }
+            let (ok, ended) = if app.is_finished() { app.await.map(|(k, e, _)| (k.to_string(), e)).unwrap_or(("PANIC".into(), false)) } else { ("PENDING".to_string(), false) };
+            return format!("{} # sends_ok={} end_ok={}", toks.join(","), ok, ended as u8);
+        }
         // the peer stops reading; k sends
         let sends = tokio::spawn(async move {
             let mut ok = 0;
@@ -1018,6 +1061,25 @@ pub fn run_flush_case(line: &str) -> String {
 
 pub fn flush_oracle(trace: &str) -> Vec<String> {
     let mut v = Vec::new();
+    if trace.contains("end_ok=") {
+        // session variant: as many transfer frames before the end as sends returned Ok, nothing after the end
+        let wire = trace.split('#').next().unwrap_or("").trim();
+        let toks: Vec<&str> = wire.split(',').filter(|t| !t.is_empty()).collect();
+        let ok: usize = trace.split("sends_ok=").nth(1).and_then(|x| x.split_whitespace().next()).and_then(|x| x.parse().ok()).unwrap_or(usize::MAX);
+        match toks.iter().position(|t| t.starts_with('E')) {
+            Some(p) => {
+                let before = toks[..p].iter().filter(|t| t.starts_with('T')).count();
+                if ok != usize::MAX && before < ok {
+                    v.push(format!("c13-end-drops-queued-frames: {} pre-settled sends returned Ok before the session was ended, {} transfers were written before the end frame", ok, before));
+                }
+                if toks[p + 1..].iter().any(|t| t.starts_with('T') || t.starts_with('E')) {
+                    v.push(format!("c13-after-end: {} written after the end", toks[p + 1..].join(",")));
+                }
+            }
+            None => v.push("c13-end-not-written: the session was ended, no end frame was written".to_string()),
+        }
+        return v;
+    }
     let wire = trace.split('#').next().unwrap_or("").trim();
     let toks: Vec<&str> = wire.split(',').filter(|t| !t.is_empty()).collect();
     if let Some(p) = toks.iter().position(|t| t.starts_with('C')) {
@@ -1049,6 +1111,24 @@ pub fn run_flush(dir: &str) {
                 if frames >= 1 {
                     out.nontrivial(&line);
                 }
+                for vv in flush_oracle(&t) {
+                    let class = vv.split(':').next().unwrap_or("?").to_string();
+                    out.violation(&class, &format!("{} | `{}` -> {}", vv, line, t), &line);
+                }
+                out.case(&line, &t);
+            }
+        }
+    }
+    for how in ["end", "ende"] {
+        for n in [1usize, 3, 10, 30] {
+            for size in [10usize, 300] {
+                let line = format!("lifeq n={} pipe=65536 size={} how={}", n, size, how);
+                let t = match std::panic::catch_unwind(|| run_flush_case(&line)) {
+                    Ok(t) => t,
+                    Err(_) => "HARNESS-PANIC".to_string(),
+                };
+                out.add("transfer_frames_before_end", t.matches('T').count() as u64);
+                out.nontrivial(&line);
                 for vv in flush_oracle(&t) {
                     let class = vv.split(':').next().unwrap_or("?").to_string();
                     out.violation(&class, &format!("{} | `{}` -> {}", vv, line, t), &line);
